@@ -256,7 +256,7 @@ Proof.
       E : comp ?q _ _ _ = Some _ |- _ => apply IH in E
     end;
     try (inversion Hc; subst; lia).
-  - (* if *) destruct l0 as [|[] [|]]; destruct l1 as [|[] [|]]; inversion Hc; subst; lia.
+  - (* if *) destruct (is_const1 l0), (is_const1 l1); inversion Hc; subst; lia.
   - (* try *) destruct h as [h|]; simpl in *; dcomp; inversion Hc; subst; clear Hc.
     + apply H in Ec0. lia. + lia.
   - (* array *) destruct (array_fold q); inversion Hc; subst; lia.
